@@ -286,6 +286,156 @@ func hoistReceives(f *ast.File) {
 	})
 }
 
+// ---- R9: map accesses and release operations (simrt/race.go) ---------------------------------
+//
+// m[k] as a value      => simrt.MapRead(m)[k]
+// m[k] = v, m[k] op= v, m[k]++, delete(m, k), clear(m)  => ... simrt.MapWrite(m) ...
+// calls into sync (Unlock, RUnlock, Done, Signal, Broadcast, ...), sync/atomic, context, and of
+// values of type context.CancelFunc  => simrt.Rel(f)(args): Release, then the operation.
+// (Lock, RLock and Wait only acquire; they are left alone. Channel operations, close and go
+// statements are handled where they are rewritten anyway.)
+func instrumentMapAccesses(f *ast.File, info *types.Info) {
+	isMap := func(e ast.Expr) bool {
+		tv, ok := info.Types[e]
+		if !ok || tv.Type == nil {
+			return false
+		}
+		_, is := tv.Type.Underlying().(*types.Map)
+		return is
+	}
+	writes := map[*ast.IndexExpr]bool{}
+	ast.Inspect(f, func(n ast.Node) bool {
+		switch x := n.(type) {
+		case *ast.AssignStmt:
+			if x.Tok == token.DEFINE {
+				return true
+			}
+			for _, l := range x.Lhs {
+				if ie, ok := l.(*ast.IndexExpr); ok && isMap(ie.X) {
+					writes[ie] = true
+				}
+			}
+		case *ast.IncDecStmt:
+			if ie, ok := x.X.(*ast.IndexExpr); ok && isMap(ie.X) {
+				writes[ie] = true
+			}
+		case *ast.RangeStmt:
+			// for m[k] = range ...: rare; treat the targets as writes
+			for _, l := range []ast.Expr{x.Key, x.Value} {
+				if ie, ok := l.(*ast.IndexExpr); ok && x.Tok == token.ASSIGN && isMap(ie.X) {
+					writes[ie] = true
+				}
+			}
+		}
+		return true
+	})
+	wrap := func(name string, m ast.Expr) ast.Expr {
+		return &ast.CallExpr{Fun: simSel(name), Args: []ast.Expr{m}}
+	}
+	releasePkgs := map[string]bool{"sync": true, "sync/atomic": true, "context": true, "golang.org/x/sync/errgroup": true, "golang.org/x/sync/semaphore": true}
+	acquireOnly := map[string]bool{"Lock": true, "RLock": true, "Wait": true, "TryLock": true, "TryRLock": true, "Load": true,
+		"Background": true, "TODO": true, "WithCancel": true, "WithTimeout": true, "WithDeadline": true, "WithValue": true, "Value": true, "Err": true, "Deadline": true,
+		"Do": true, "Go": true, "NewCond": true, "OnceFunc": true, "OnceValue": true, "OnceValues": true, "AfterFunc": true, "Cause": true, "WithoutCancel": true}
+	// isRelease: a call into sync / sync/atomic / context (other than the acquire-only and
+	// constructor functions), or of a value of type context.CancelFunc
+	isRelease := func(x *ast.CallExpr) bool {
+		var fn *types.Func
+		switch fx := x.Fun.(type) {
+		case *ast.SelectorExpr:
+			fn, _ = info.Uses[fx.Sel].(*types.Func)
+		case *ast.Ident:
+			fn, _ = info.Uses[fx].(*types.Func)
+			if fn == nil {
+				if tv, ok := info.Types[fx]; ok && tv.Type != nil && strings.HasSuffix(tv.Type.String(), "context.CancelFunc") {
+					return true
+				}
+			}
+		}
+		if fn == nil || fn.Pkg() == nil || !releasePkgs[fn.Pkg().Path()] {
+			return false
+		}
+		return !acquireOnly[fn.Name()]
+	}
+	// deferred release operations release when they RUN, not when they are deferred:
+	//   defer mu.Unlock()  =>  defer func(f func()) { simrt.Release(); f() }(mu.Unlock)
+	//   defer close(ch) / other forms  =>  defer func() { simrt.Release(); <call> }()
+	deferred := map[*ast.CallExpr]bool{}
+	defer func() {
+		ast.Inspect(f, func(n ast.Node) bool {
+			ds, ok := n.(*ast.DeferStmt)
+			if !ok || deferred[ds.Call] {
+				return true
+			}
+			call := ds.Call
+			isClose := false
+			if id, ok := call.Fun.(*ast.Ident); ok && id.Name == "close" {
+				_, isClose = info.Uses[id].(*types.Builtin)
+			}
+			inner := call
+			if !isClose && !isRelease(call) {
+				return true
+			}
+			rel := &ast.ExprStmt{X: &ast.CallExpr{Fun: simSel("Release")}}
+			var nc *ast.CallExpr
+			if len(inner.Args) == 0 && !isClose {
+				fparam := ast.NewIdent("simF")
+				lit := &ast.FuncLit{
+					Type: &ast.FuncType{Params: &ast.FieldList{List: []*ast.Field{{Names: []*ast.Ident{fparam}, Type: &ast.FuncType{Params: &ast.FieldList{}}}}}},
+					Body: &ast.BlockStmt{List: []ast.Stmt{rel, &ast.ExprStmt{X: &ast.CallExpr{Fun: fparam}}}},
+				}
+				nc = &ast.CallExpr{Fun: lit, Args: []ast.Expr{inner.Fun}}
+			} else {
+				lit := &ast.FuncLit{Type: &ast.FuncType{Params: &ast.FieldList{}}, Body: &ast.BlockStmt{List: []ast.Stmt{rel, &ast.ExprStmt{X: inner}}}}
+				nc = &ast.CallExpr{Fun: lit}
+			}
+			deferred[nc] = true
+			ds.Call = nc
+			return true
+		})
+	}()
+	replaceExprs(f, func(e ast.Expr) ast.Expr {
+		switch x := e.(type) {
+		case *ast.IndexExpr:
+			if !isMap(x.X) {
+				return nil
+			}
+			if _, done := x.X.(*ast.CallExpr); done {
+				if ce := x.X.(*ast.CallExpr); isSimSel(ce.Fun, "MapRead") || isSimSel(ce.Fun, "MapWrite") {
+					return nil
+				}
+			}
+			if writes[x] {
+				x.X = wrap("MapWrite", x.X)
+			} else {
+				x.X = wrap("MapRead", x.X)
+			}
+			return nil
+		case *ast.CallExpr:
+			if id, ok := x.Fun.(*ast.Ident); ok && (id.Name == "delete" || id.Name == "clear") && len(x.Args) >= 1 {
+				if _, isBuiltin := info.Uses[id].(*types.Builtin); isBuiltin && isMap(x.Args[0]) {
+					x.Args[0] = wrap("MapWrite", x.Args[0])
+				}
+				return nil
+			}
+			// release operations (Once.Do and WaitGroup.Go are rewritten as a whole elsewhere)
+			if isRelease(x) {
+				x.Fun = &ast.CallExpr{Fun: simSel("Rel"), Args: []ast.Expr{x.Fun}}
+			}
+			return nil
+		}
+		return nil
+	})
+}
+
+func isSimSel(e ast.Expr, name string) bool {
+	sel, ok := e.(*ast.SelectorExpr)
+	if !ok || sel.Sel.Name != name {
+		return false
+	}
+	id, ok := sel.X.(*ast.Ident)
+	return ok && id.Name == "simrt"
+}
+
 func rewriteFile(l *loader, pi *pkgInfo, f *ast.File) {
 	info := pi.info
 	curFunc := ""
@@ -509,6 +659,7 @@ func rewriteFile(l *loader, pi *pkgInfo, f *ast.File) {
 		var pre []ast.Stmt
 		idx := newTok()
 		pre = append(pre, &ast.AssignStmt{Lhs: []ast.Expr{idx}, Tok: token.DEFINE, Rhs: []ast.Expr{&ast.UnaryExpr{Op: token.SUB, X: intLit(1)}}})
+		pre = append(pre, &ast.ExprStmt{X: &ast.CallExpr{Fun: simSel("Release")}})
 		type caseInfo struct {
 			comm   func() ast.Stmt // fresh copy of the communication, using hoisted operands
 			bind   []ast.Stmt      // statements that bind the received values in the body
@@ -664,6 +815,7 @@ func rewriteFile(l *loader, pi *pkgInfo, f *ast.File) {
 					&ast.AssignStmt{Lhs: []ast.Expr{cv}, Tok: token.DEFINE, Rhs: []ast.Expr{st.Chan}},
 					&ast.AssignStmt{Lhs: []ast.Expr{vv}, Tok: token.DEFINE, Rhs: []ast.Expr{&ast.CallExpr{Fun: simSel("ZeroOfSend"), Args: []ast.Expr{cv}}}},
 					&ast.AssignStmt{Lhs: []ast.Expr{vv}, Tok: token.ASSIGN, Rhs: []ast.Expr{st.Value}},
+					&ast.ExprStmt{X: &ast.CallExpr{Fun: simSel("Release")}},
 					beginStmt(tok),
 					&ast.SendStmt{Chan: cv, Value: vv},
 					endStmt(tok),
@@ -673,6 +825,15 @@ func rewriteFile(l *loader, pi *pkgInfo, f *ast.File) {
 				out = append(out, selectRewrite(st)...)
 			case *ast.ExprStmt, *ast.AssignStmt:
 				visit(s)
+				if es, ok := s.(*ast.ExprStmt); ok {
+					if ce, ok := es.X.(*ast.CallExpr); ok {
+						if id, ok := ce.Fun.(*ast.Ident); ok && id.Name == "close" {
+							if _, isBuiltin := info.Uses[id].(*types.Builtin); isBuiltin {
+								out = append(out, &ast.ExprStmt{X: &ast.CallExpr{Fun: simSel("Release")}})
+							}
+						}
+					}
+				}
 				name, call := syncCall(s)
 				switch {
 				case name == "Go" && len(call.Args) == 1:
@@ -818,6 +979,7 @@ func rewriteFile(l *loader, pi *pkgInfo, f *ast.File) {
 		})
 	}
 
+	instrumentMapAccesses(f, info)
 	for _, d := range f.Decls {
 		fd, ok := d.(*ast.FuncDecl)
 		if !ok || fd.Body == nil {
